@@ -219,6 +219,17 @@ impl SupGuard {
             final(heap).kids == old(heap).kids, final(heap).status == old(heap).status, final(heap).locked == old(heap).locked, final(heap).killed == old(heap).killed,
     )]
     pub fn vx_store(&mut self, v: Option<ActorCell>) { unimplemented!() }
+    /// `guard.take()` (Option::take through the guard): the slot is emptied, whatever it held
+    #[verus_verify(external_body)]
+    #[verus_spec(r =>
+        with Tracked(heap): Tracked<&mut TreeHeap>
+        requires old(heap).locked
+        ensures
+            final(self).owner == old(self).owner,
+            final(heap).sup == old(heap).sup.insert(old(self).owner, None),
+            final(heap).kids == old(heap).kids, final(heap).status == old(heap).status, final(heap).locked == old(heap).locked, final(heap).killed == old(heap).killed,
+    )]
+    pub fn take(&mut self) -> Option<ActorCell> { unimplemented!() }
 }
 
 #[verus_verify]
